@@ -339,8 +339,9 @@ class Online:
             self.session(d, start, pid)
             if pid == 1:
                 fin, _ = ch.scan(d)
-                if fin:
-                    ends[d] = max(ends.get(d, lo), cc.bound[max(fin)] - 1)
+                inside = [j for j in fin if 1 <= j <= cc.nw]      # (a file outside the universe is reported by the trace)
+                if inside:
+                    ends[d] = max(ends.get(d, lo), cc.bound[max(inside)] - 1)
                     # ends[d]: last index of the last final window (a later session may not enter it)
             D = sorted(ends) or [d]
             if rng.random() < 0.7 or si + 1 == nsessions:
